@@ -47,7 +47,7 @@ func configs08(tier string) []xplore.Config {
 				if si == 0 && tier != "thorough" {
 					b = 2
 				}
-				out = append(out, xplore.Config{Name: fmt.Sprintf("A stall=%s updates_only=%v | B normal | W=%s", st, uo, scriptName(sc)), Bound: b, Data: cfg08{st, uo, sc, tier == "thorough" && si == 0}})
+				out = append(out, xplore.Config{Name: fmt.Sprintf("A stall=%s updates_only=%v | B normal | W=%s", st, uo, scriptName(sc)), Bound: b, Data: cfg08{st, uo, sc, (tier == "thorough" && si == 0) || (st == "permanent" && si == 1)}})
 			}
 		}
 	}
